@@ -80,7 +80,18 @@
    NFD socket exists) are enumerated as states of kind "plat".
 
    Interpretation decision (DESIGN 9/C20): when a store location exists neither as given nor next to the
-   configuration file and NO platform default location exists either, any candidate is accepted. *)
+   configuration file and NO platform default location exists either, any candidate is accepted.
+   (Re-examined with the observation "pib=pib-sqlite3:nowhere and no ~/.ndn gives <conf dir>/nowhere, no location at
+   all gives 'pib-sqlite3:'": the platform hands out a LIST of default locations and the library falls back to the first
+   that exists; the statement does not say which location is "the platform default location" when none exists, so no
+   outcome is demanded there.  What the unchanged library returns then: the location joined to the configuration
+   file's directory / the absolute location as given / the empty location.)
+
+   Interpretation decision (transport URIs): the statement speaks of a transport URI; in URI syntax '?' and '#' end the
+   path, so what "unix:///tmp/nfd#1.sock" denotes as socket path is not fixed by the statement (the library, through
+   urlparse, takes "/tmp/nfd"), nor is the address denoted by "unix://" with no path at all (the library takes
+   UnixFace's built-in /run/nfd.sock, as it takes port 6363 where no port is given).  "Refused rather than silently
+   replaced" is stated for unknown SCHEMES only.  Such URIs are not in the domain of the check. *)
 EXTENDS Naturals, Sequences, FiniteSets, TLC
 
 Settings == {"transport", "pib", "tpm"}
